@@ -381,6 +381,12 @@ func c01History(c *ctx, ci int, cf c01Config, nbar int) {
 	args := append([]string{"-proxy.addr", fmt.Sprintf("127.0.0.1:%d", freePort()), "-registry.consul.checksRequired", cf.Required,
 		"-registry.consul.service.status", strings.Join(cf.Status, ",")}, cf.Extra...)
 	rg, err := newRig(c, fmt.Sprintf("c01-%d", ci), args)
+	if err == nil {
+		// neighbours of the override's key that merely share its text as a prefix (a backup copy, another tool's keys): they
+		// are not "the kvpath key and its subkeys", their contents are not the operator's commands
+		rg.agent.PutKV("fabio/config.bak", "route del web\nroute del db")
+		rg.agent.PutKV("fabio/configurator/ui", "{\"not\": \"a route command\"}")
+	}
 	if err != nil {
 		c.R.Inconcl("cannot start fabio: %v", err)
 		return
